@@ -184,3 +184,4 @@ MANIFEST = {
 }
 MANIFEST['text'] += (' ' + 'Half of the cases use a nested -o path whose parent does not exist; 10% are preceded by an unrelated Generator run.')
 MANIFEST['text'] += (' ' + 'Bound violations are also written as fractions (pmax = n2 + 0.9, lq = uq + 0.5, ...).')
+MANIFEST['text'] += (' ' + 'Bounds are also violated by a hair (1.0000000005, -1e-12); a third of the legal runs spell -o relative to the current directory (./x, hidden directories), names with upper-case letters, blanks and trailing slashes.')
